@@ -178,6 +178,17 @@ theorem topCfg_OK {w : World} {t : Top} (hok : InitsOk w) (hcl : Closed w.initOf
       · have : g' = g := Option.some.inj (hio.symm.trans hv)
         exact this ▸ hg'
     exact Or.inr ⟨g, hg, hu⟩
+  · intro g u v hu hv e
+    obtain ⟨ku, hku⟩ := hok.complete u g hu
+    obtain ⟨kv, hkv⟩ := hok.complete v g hv
+    have e1 := (hok.key_name g ku u hku).1
+    have e2 := (hok.key_name g kv v hkv).1
+    have : ku = kv := by
+      have : w.vname u = w.vname v := e
+      rw [e1, e2] at this
+      exact Option.some.inj this
+    subst this
+    exact keys_nodup_unique (hok.keys_nodup g) hku hkv
 
 theorem topCfg_HC (w : World) (t : Top) : HC (topCfg w t) t.tr :=
   ⟨fun _ hv => Or.inl hv, fun g hg _ hu => Or.inr ⟨g, hg, hu⟩⟩
@@ -209,6 +220,7 @@ theorem fixTop_scopes {w : World} {t : Top} (hok : InitsOk w) (hcl : Closed w.in
   obtain ⟨hC1, hC2, hCb, _⟩ := (topCfg_HC w t).graph
   have good0 : Good (topCfg w t) (topInit w t) [] :=
     { inj := fun a ha => by simp at ha, seen := fun u hu => by simp at hu, kept := fun v hv => by simp at hv
+      first := FirstB.nil _ _
       top_iff := fun s => by simp [topInit, topOf] }
   obtain ⟨l1, _⟩ := enterGraph_Lvl hc iv hiv (topInit_TInv t hok) good0 (S := []) (fun x => by simp [topInit])
     t.gid t.isGraph t.ins t.outs (bodyOuts t.body) hC1 hC2 (fun v _ h => by simp at h)
